@@ -6,6 +6,7 @@ import Swiftness.Model.Queries
 import Swiftness.Model.Diluted
 import Swiftness.Model.Table
 import Driver.AstLoad
+import Swiftness.Prover.MerkleProver
 
 namespace Swiftness.Driver
 open Swiftness Swiftness.Proto
@@ -92,6 +93,13 @@ def answer? (ctx : Ctx) (H : Hashes) (_stone6 : Bool) (toks : List String) : Opt
     | .panic s => pure ("panic " ++ s)
   | ["diluted", n, s, z, a] => do
     pure ("ok " ++ hx (Diluted.getDilutedProduct (← felt? n) (← felt? s) (← felt? z) (← felt? a)))
+  | "starkcfg" :: sec :: nc1 :: nc2 :: rest => do
+    let c ← parseCfg? rest
+    pure (out unit (c.validate (← felt? sec) (← felt? nc1) (← felt? nc2)))
+  | ["fricfg", lnc, nf, lis, nl, last, steps, inner] => do
+    let c : Fri.Config := { logInputSize := ← felt? lis, nLayers := ← felt? nl, innerLayers := ← (← rows? inner).mapM tcfg?,
+                            friStepSizes := ← felts? steps, logLastLayerDegreeBound := ← felt? last }
+    pure (out hx (c.validate (← felt? lnc) (← felt? nf)))
   | "memratio" :: rest =>
     if rest.length ≠ 13 then none else do
     let pi ← parsePI? (rest.take 10)
@@ -104,6 +112,17 @@ def answer? (ctx : Ctx) (H : Hashes) (_stone6 : Bool) (toks : List String) : Opt
     match rest.drop 10 with
     | [nf] => pure ("ok " ++ hx (pi.getHash H _stone6 (← felt? nf)))
     | _ => none
+  -- honest-prover helpers (Lean spec builder): used by the generators, answered only by `drv`
+  | ["merkle_build", h, nf, leaves, q] => do
+    let (root, auth) := Prover.buildAuthL H (← felt? nf) (← nat? h) (← felts? leaves) (← nats? q)
+    pure s!"ok {hx root} {hxs auth}"
+  | ["table_build", h, nf, ncols, cells, q] => do
+    let n ← nat? ncols
+    let cells ← felts? cells
+    let hgt ← nat? h
+    let rows : Array (List Felt) := Array.ofFn (n := 2 ^ hgt) fun i => (cells.drop (i.val * n)).take n
+    let (root, vals, auth) := Prover.buildTableAuth H (← felt? nf) hgt rows (← nats? q)
+    pure s!"ok {hx root} {hxs vals} {hxs auth}"
   | "comp_inner" :: layout :: mask :: coeffs :: point :: tgen :: gv :: rest => do
     let L ← ctx.find? layout
     let dp ← match rest with | [] => some #[] | [d] => (nats? d).map (·.toArray) | _ => none
